@@ -10,6 +10,7 @@ import itertools
 import numpy as np
 
 FLOOR = 1e-9
+ABS_FLOOR = 1e-12      # round-off of O(1) fields differentiated twice
 
 
 def index_classes(shape_prefix, dim_time=True):
@@ -54,6 +55,8 @@ def judge(e1, e2, scale, order, refine=2.0, lose=1):
     """Three-valued verdict for one (quantity, component class)."""
     if not np.isfinite(e1) or not np.isfinite(e2):
         return "violated", "non-finite error"
+    if e2 <= ABS_FLOOR and e1 <= 1e3 * ABS_FLOOR:
+        return "held", "round-off floor"
     if scale <= 0 or not np.isfinite(scale):
         return "inconclusive", "vanishing scale"
     if e2 <= FLOOR * scale:
